@@ -496,17 +496,8 @@ def mod_target(md, ent):
     if k == "EXCHANGE":
         if f == "exchange_gammas":
             return [" -exchange_gammas %d" % v], "/exchange_gammas", ["/exchange_gammas"], v
-        # known finding C14-exchange-modify: `-component NAME` is looked up among the element names of the components' totals
-        # (Exchange.cxx Find_comp), so a component whose formula is not such a name (NaX, CaX2) is replaced by an empty one.
-        # Only components that the lookup can find are modified; otherwise the scalar field is used (counted by the caller).
-        if md.get("force_comp"):
-            c = md["force_comp"]
-        else:
-            ok = [x for x in comps if isinstance(comps[x], dict) and isinstance(comps[x].get("totals"), dict) and x in comps[x]["totals"]]
-            if ent and not ok:
-                v = 1 if v > 0 else 0
-                return [" -exchange_gammas %d" % v], "/exchange_gammas", ["/exchange_gammas"], v, "excluded"
-            c = _pick(ok, idx) or "X"
+        # (fixed in /repo ec3a664c: the component is now found by its formula; before that, -component NaX emptied the component)
+        c = md.get("force_comp") or _pick(comps, idx) or "X"
         return [" -component %s" % c, "  -la %s" % fmt(v)], "/component/%s/la" % c, ["/component/%s/la" % c], v
     if k == "SURFACE":
         if f == "thickness":
@@ -553,11 +544,10 @@ def mod_target(md, ent):
 
 
 def mod_plan(md, ent):
-    """-> dict(lines, path, allowed, value, excluded)"""
+    """-> dict(lines, path, allowed, value)"""
     r = mod_target(md, ent)
     # `-new_def` is an internal flag that every RAW reader clears (dump comment: "candidates with new_def=true")
-    return {"lines": r[0], "path": r[1], "allowed": list(r[2]) + ["/new_def"] + WORKSPACE.get(md["kind"], []), "value": r[3],
-            "excluded": len(r) > 4}
+    return {"lines": r[0], "path": r[1], "allowed": list(r[2]) + ["/new_def"] + WORKSPACE.get(md["kind"], []), "value": r[3]}
 
 
 def render_mod(md, ent):
